@@ -3,6 +3,7 @@ package storage
 import (
 	"errors"
 	"fmt"
+	"math"
 )
 
 var errKeyAlreadyExists = errors.New("record already exists")
@@ -30,6 +31,11 @@ func (b *BTree) setRoot(node *btreeNode) {
 }
 
 func (b *BTree) insert(value []byte) (uint32, uint64, error) {
+	if b.store.getLastKey() == math.MaxUint32 {
+		// the 32-bit row-id space is used up: refuse rather than wrap around
+		// to ids that are taken
+		return 0, b.store.nextLSN(), ErrRowIDsExhausted
+	}
 	nextKey := b.store.getLastKey() + 1
 	nextLSN := b.store.nextLSN()
 	err := b.insertKey(nextKey, nextLSN, value)
